@@ -175,7 +175,7 @@ pub fn vectors(fam: model::Fam) -> Vec<Input> {
 pub fn run(env: &mut Env) -> RunResult {
     env.run_inputs(SUB_B3, &vectors(model::Fam::V3))?;
     env.run_inputs(SUB_B5, &vectors(model::Fam::V5))?;
-    let n = env.tier.sel(6_000, 90_000);
+    let n = env.tier.sel(40_000, 500_000);
     env.run_tapes(SUB_V3, n, 160)?;
     env.run_tapes(SUB_V5, n * 2, 260)?;
     use Reject::*;
